@@ -86,7 +86,7 @@ class C01(framework.PropertyCheck):
             steps.append(('eval', 'eorg', qback))
             if _i < 2:
                 # a scan over the whole file that reads the signals, then the direct reads once more: still this index's values
-                steps.append(('eval', 'eorg', '(list (length (find (do ' + ' '.join(f'(get {qs(n)})' for n in names[:4]) + ' #t))) (count #t))'))
+                steps.append(('eval', 'eorg', '(list (count #t) (length (find (do ' + ' '.join(f'(get {qs(n)})' for n in names[:4]) + ' #t))))'))
                 steps.append(('eval', 'eorg', q))
             steps.append(('eval', 'eorg', '(step)'))
         return steps
